@@ -306,49 +306,55 @@ def eqExpr (k : SrcKind) (cf : CmpField) : GToks :=
   | .key _ t => eqChecker (applyTemplate t this)
   | .dflt => eqChecker this
 
-def poExpr (k : SrcKind) (cf : CmpField) : GToks :=
+/-- the comparison of one field for `PartialOrd`, before `reverse` -/
+def poExpr0 (k : SrcKind) (cf : CmpField) : GToks :=
   let f := cf.f
   let id := f.makeIdent "__partial_ord_"
   let this := selfOf k f
   let other := otherOf k f
   let args (e : Toks) : List GToks := ["&" ::: this, "&" ::: other, U e]
-  let e0 := match cf.sel with
-    | .by_ .ord e =>
-      helperFnBlock id helperT
-        [["__this", ":"] +++ refT, ["__other", ":"] +++ refT,
-         ["__cmp", ":", "impl"] +++ coreFn +++ paren (refT +++ "," ::: refT) +++ "->" ::: ordering]
-        ("->" ::: optOrdering)
-        (absPath ["core", "option", "Option", "Some"] +++ paren ("__cmp" ::: paren ["__this", ",", "__other"]))
-        (args e)
-    | .by_ _ e =>
-      helperFnBlock id helperT
-        [["__this", ":"] +++ refT, ["__other", ":"] +++ refT,
-         ["__partial_cmp", ":", "impl"] +++ coreFn +++ paren (refT +++ "," ::: refT) +++ "->" ::: optOrdering]
-        ("->" ::: optOrdering)
-        ("__partial_cmp" ::: paren ["__this", ",", "__other"])
-        (args e)
-    | .key _ t => ufcs2 ["core", "cmp", "PartialOrd", "partial_cmp"] (applyTemplate t this) (applyTemplate t other)
-    | .dflt => ufcs2 ["core", "cmp", "PartialOrd", "partial_cmp"] this other
-  if cf.rev then
-    absPath ["core", "option", "Option", "map"] +++ paren (e0 +++ "," ::: absPath ["core", "cmp", "Ordering", "reverse"])
-  else e0
+  match cf.sel with
+  | .by_ .ord e =>
+    helperFnBlock id helperT
+      [["__this", ":"] +++ refT, ["__other", ":"] +++ refT,
+       ["__cmp", ":", "impl"] +++ coreFn +++ paren (refT +++ "," ::: refT) +++ "->" ::: ordering]
+      ("->" ::: optOrdering)
+      (absPath ["core", "option", "Option", "Some"] +++ paren ("__cmp" ::: paren ["__this", ",", "__other"]))
+      (args e)
+  | .by_ _ e =>
+    helperFnBlock id helperT
+      [["__this", ":"] +++ refT, ["__other", ":"] +++ refT,
+       ["__partial_cmp", ":", "impl"] +++ coreFn +++ paren (refT +++ "," ::: refT) +++ "->" ::: optOrdering]
+      ("->" ::: optOrdering)
+      ("__partial_cmp" ::: paren ["__this", ",", "__other"])
+      (args e)
+  | .key _ t => ufcs2 ["core", "cmp", "PartialOrd", "partial_cmp"] (applyTemplate t this) (applyTemplate t other)
+  | .dflt => ufcs2 ["core", "cmp", "PartialOrd", "partial_cmp"] this other
 
-def ordExpr (k : SrcKind) (cf : CmpField) : GToks :=
+def poExpr (k : SrcKind) (cf : CmpField) : GToks :=
+  if cf.rev then
+    absPath ["core", "option", "Option", "map"] +++ paren (poExpr0 k cf +++ "," ::: absPath ["core", "cmp", "Ordering", "reverse"])
+  else poExpr0 k cf
+
+/-- the comparison of one field for `Ord`, before `reverse` -/
+def ordExpr0 (k : SrcKind) (cf : CmpField) : GToks :=
   let f := cf.f
   let id := f.makeIdent "__ord_"
   let this := selfOf k f
   let other := otherOf k f
-  let e0 := match cf.sel with
-    | .by_ _ e =>
-      helperFnBlock id helperT
-        [["__this", ":"] +++ refT, ["__other", ":"] +++ refT,
-         ["__cmp", ":", "impl"] +++ coreFn +++ paren (refT +++ "," ::: refT) +++ "->" ::: ordering]
-        ("->" ::: ordering)
-        ("__cmp" ::: paren ["__this", ",", "__other"])
-        ["&" ::: this, "&" ::: other, U e]
-    | .key _ t => ufcs2 ["core", "cmp", "Ord", "cmp"] (applyTemplate t this) (applyTemplate t other)
-    | .dflt => ufcs2 ["core", "cmp", "Ord", "cmp"] this other
-  if cf.rev then absPath ["core", "cmp", "Ordering", "reverse"] +++ paren e0 else e0
+  match cf.sel with
+  | .by_ _ e =>
+    helperFnBlock id helperT
+      [["__this", ":"] +++ refT, ["__other", ":"] +++ refT,
+       ["__cmp", ":", "impl"] +++ coreFn +++ paren (refT +++ "," ::: refT) +++ "->" ::: ordering]
+      ("->" ::: ordering)
+      ("__cmp" ::: paren ["__this", ",", "__other"])
+      ["&" ::: this, "&" ::: other, U e]
+  | .key _ t => ufcs2 ["core", "cmp", "Ord", "cmp"] (applyTemplate t this) (applyTemplate t other)
+  | .dflt => ufcs2 ["core", "cmp", "Ord", "cmp"] this other
+
+def ordExpr (k : SrcKind) (cf : CmpField) : GToks :=
+  if cf.rev then absPath ["core", "cmp", "Ordering", "reverse"] +++ paren (ordExpr0 k cf) else ordExpr0 k cf
 
 def hashStmt (x : GToks) : GToks :=
   absPath ["core", "hash", "Hash", "hash"] +++ paren ("&" ::: paren x +++ [",", "__state"]) +++ [";"]
@@ -372,7 +378,7 @@ def hashExpr (k : SrcKind) (cf : CmpField) : GToks :=
 def toIndexFn (vs : List VariantE) : GToks :=
   ["let", "__to_index", "=", "|", "__this", ":", "&", "Self", "|", "->", "usize"] +++
     brace ("match" ::: "__this" ::: brace (
-      (vs.zipIdx.flatMap fun (v, i) => paren v.makePatWildcard +++ ["=>", ((toString i ++ "usize" : String) : GTok), ","]) +++
+      (vs.zipIdx.flatMap fun (v, i) => paren v.makePatWildcard +++ ["=>", idxLit i, ","]) +++
       ("_" ::: "=>" ::: absPath ["core", "unreachable"] +++ ["!", "(", ")", ","]))) +++ [";"]
 
 def poStep (e : GToks) : GToks :=
